@@ -338,13 +338,13 @@ def fam_ulp(rng):
     x0 = rng.choice([1.0, 0.3, 13.0, 1e3])
     k = [rng.randrange(-3, 4) for _ in range(8)]
     a = [(nudge(x0, k[0]), -5.0), (nudge(x0 + 1.0, k[1]), -5.0), (nudge(x0 + 1.0, k[2]), 5.0), (nudge(x0, k[3]), 5.0)]
-    y0 = rng.choice([0.5, 0.7, -1.0])      # never 0.0: nudging it would leave the exponent range (N3)
+    y0 = rng.choice([0.5, 0.7, -1.5])      # neither y0 nor y0 + 1 may be 0.0: nudging it would leave the exponent range (N3)
     b = [(x0 - 4.0, nudge(y0, k[4])), (x0 + 4.0, nudge(y0, k[5])), (x0 + 4.0, nudge(y0 + 1.0, k[6])), (x0 - 4.0, nudge(y0 + 1.0, k[7]))]
     return ('M', [[a]]), ('M', [[b]]), {'family': 'ulp'}
 
 
 FAMILIES = {'rect': fam_rect, 'oct': fam_oct, 'lat': fam_lat, 'gp': fam_gp, 'self': fam_self, 'degen': fam_degen, 'ulp': fam_ulp}
-EXACT_FAMILIES = ('rect', 'oct')
+EXACT_FAMILIES = ('rect', 'oct', 'boxes', 'fan', 'sliver')
 
 
 def mixed(rng, weights):
@@ -430,3 +430,401 @@ def fam_selfop(rng):
 
 FAMILIES['share'] = fam_share
 FAMILIES['selfop'] = fam_selfop
+
+
+# ------------------------------------------------------------------ families added after the seeded-change campaign
+def _rep32(v):
+    """the rational v is exactly representable in binary32"""
+    from .fmt import to_f32
+    try:
+        f = float(v)
+    except OverflowError:
+        return False
+    return Fraction(f) == v and to_f32(f) == f
+
+
+def _orient(a, b, c):
+    F = Fraction
+    v = (F(b[0]) - F(a[0])) * (F(c[1]) - F(a[1])) - (F(b[1]) - F(a[1])) * (F(c[0]) - F(a[0]))
+    return (v > 0) - (v < 0)
+
+
+_SYM8 = [lambda x, y: (x, y), lambda x, y: (-x, y), lambda x, y: (x, -y), lambda x, y: (-x, -y),
+         lambda x, y: (y, x), lambda x, y: (-y, x), lambda x, y: (y, -x), lambda x, y: (-y, -x)]
+
+
+def fam_fan(rng):
+    """two triangles that share exactly one vertex P; an edge of one passes a hair's breadth (a few units in the last
+    place of binary32) from a vertex of the other, coordinates of mixed magnitude, all exactly representable in binary32.
+    No two edges cross, so no intersection point is ever computed: the arithmetic is exact (comparisons and the
+    orientation predicate only) and every clause holds with tolerance 0 in both precisions."""
+    while True:
+        P = (rng.choice([0.75, 0.25, 0.0, 1.5, 3.0]), rng.choice([0.75, 0.25, 0.0, 1.5, -2.0]))
+        bx, by = float(rng.randrange(10 ** 6, 8 * 10 ** 6)), float(rng.randrange(10 ** 5, 4 * 10 ** 6))
+        B = (bx, by)
+        t = rng.uniform(0.3, 0.9)
+        cx0 = round(P[0] + t * (bx - P[0]))
+        # among a window of abscissae take the lattice point strictly below the line P->B that is nearest to it (the
+        # orientation determinant is then far smaller than the rounding error of its evaluation in single precision)
+        best = None
+        Fr = Fraction
+        for cxi in range(cx0 - rng.choice([0, 50, 400]), cx0 + 1):
+            yl = Fr(P[1]) + (Fr(cxi) - Fr(P[0])) * (Fr(by) - Fr(P[1])) / (Fr(bx) - Fr(P[0]))
+            cyi = math.floor(yl)
+            if cyi == yl:
+                cyi -= 1
+            gap = yl - cyi
+            if best is None or gap < best[0]:
+                best = (gap, float(cxi), float(cyi))
+        cx, cy = best[1], best[2] - rng.choice([0, 0, 0, 1])
+        if _orient(P, B, (cx, cy)) >= 0:
+            continue
+        C = (cx, cy)
+        H = float(rng.randrange(10 ** 5, 10 ** 6))
+        subj = [P, B, (bx, by + H)]
+        if rng.random() < 0.5:
+            clip = [P, (cx, cy - H), C]
+        else:
+            # a separate part whose apex C almost touches the long edge P->B from below (no common vertex: the two nearly
+            # collinear points are compared by the orientation predicate only)
+            hw = float(rng.randrange(100, 5000))
+            clip = [C, (cx - hw, cy - H), (cx + hw, cy - H)]
+            if any(_orient(P, B, q) >= 0 for q in clip):
+                continue
+        if max(abs(v) for p in subj + clip for v in p) >= 2 ** 23:
+            continue
+        f = rng.choice(_SYM8)
+        subj = [f(x, y) for (x, y) in subj]
+        clip = [f(x, y) for (x, y) in clip]
+        k = rng.randrange(3)
+        subj = subj[k:] + subj[:k]
+        if rng.random() < 0.5:
+            clip.reverse()
+        a, b = ('M', [[subj]]), ('M', [[clip]])
+        if rng.random() < 0.5:
+            a, b = b, a
+        return a, b, {'family': 'fan'}
+
+
+def _segments_of(r):
+    return [(r[i], r[(i + 1) % len(r)]) for i in range(len(r))]
+
+
+def _crossings_rep32(r1, r2):
+    """(all pairwise intersection points of the two rings' edges are representable in binary32, number of proper crossings)"""
+    from . import segs
+    n = 0
+    for (a, b) in _segments_of(r1):
+        for (c, d) in _segments_of(r2):
+            cl = segs.classify(a, b, c, d)
+            if cl[0] == 'overlap':
+                return False, 0
+            if cl[0] == 'point':
+                if not (_rep32(cl[1][0]) and _rep32(cl[1][1])):
+                    return False, 0
+                if segs.interior(a, b, cl[1]) or segs.interior(c, d, cl[1]):
+                    if not (segs.interior(a, b, cl[1]) and segs.interior(c, d, cl[1])):
+                        return False, 0          # T-junction: keep the family in general position apart from exactness
+                    n += 1
+    return True, n
+
+
+def fam_sliver(rng):
+    """long thin triangles (aspect ratio 2^8 .. 2^15) crossing each other at very small angles; every vertex and every
+    crossing point is a dyadic rational exactly representable in binary32, so both precisions are exact"""
+    for _ in range(400):
+        W = float(2 ** rng.randrange(8, 16))
+        xs = [-W, -W / 2, 0.0, W / 2, W]
+        ys = [-2.0, -1.0, 0.0, 1.0, 2.0, 3.0, 4.0]
+        r1 = [(rng.choice(xs), rng.choice(ys)) for _ in range(3)]
+        r2 = [(rng.choice(xs), rng.choice(ys)) for _ in range(3)]
+        if not (simple_ring_ok(r1) and simple_ring_ok(r2)):
+            continue
+        ok, n = _crossings_rep32(r1, r2)
+        if ok and n >= 2:
+            return ('M', [[r1]]), ('M', [[r2]]), {'family': 'sliver', 'W': W}
+    r1 = [(0.0, 0.0), (32768.0, 0.0), (32768.0, 2.0)]
+    r2 = [(-16384.0, 2.0), (-16384.0, -1.0), (32768.0, -1.0)]
+    return ('M', [[r1]]), ('M', [[r2]]), {'family': 'sliver', 'W': 32768.0}
+
+
+def _box(x0, y0, x1, y1, rng):
+    r = [(float(x0), float(y0)), (float(x1), float(y0)), (float(x1), float(y1)), (float(x0), float(y1))]
+    k = rng.randrange(4)
+    r = r[k:] + r[:k]
+    if rng.random() < 0.35:
+        r.reverse()                  # clockwise: a valid way of writing the ring down
+    if rng.random() < 0.3:
+        r = r + [r[0]]
+    return r
+
+
+def fam_boxes(rng):
+    """two axis-parallel integer rectangles in every mutual position: overlapping, nested, equal, touching along an edge,
+    along part of an edge, at a corner, bounding boxes disjoint on each of the four sides; written counter-clockwise or
+    clockwise from any start vertex, as Polygon or MultiPolygon"""
+    x0, y0 = rng.randrange(0, 4), rng.randrange(0, 4)
+    w, h = rng.randrange(1, 5), rng.randrange(1, 5)
+    rel = rng.choice(['overlap', 'nested', 'equal', 'edge', 'part', 'corner', 'left', 'right', 'above', 'below', 'cross'])
+    w2, h2 = rng.randrange(1, 5), rng.randrange(1, 5)
+    if rel == 'overlap':
+        u0, v0 = x0 + rng.randrange(-w2 + 1, w), y0 + rng.randrange(-h2 + 1, h)
+    elif rel == 'nested':
+        w, h = w + 2, h + 2
+        w2, h2 = rng.randrange(1, w - 1 + 1), rng.randrange(1, h - 1 + 1)
+        u0, v0 = x0 + rng.randrange(0, w - w2 + 1), y0 + rng.randrange(0, h - h2 + 1)
+    elif rel == 'equal':
+        u0, v0, w2, h2 = x0, y0, w, h
+    elif rel == 'edge':
+        side = rng.choice('lrab')
+        if side in 'lr':
+            h2 = h
+            u0, v0 = (x0 - w2, y0) if side == 'l' else (x0 + w, y0)
+        else:
+            w2 = w
+            u0, v0 = (x0, y0 + h) if side == 'a' else (x0, y0 - h2)
+    elif rel == 'part':
+        side = rng.choice('lrab')
+        if side in 'lr':
+            u0, v0 = (x0 - w2 if side == 'l' else x0 + w), y0 + rng.randrange(-h2 + 1, h)
+        else:
+            u0, v0 = x0 + rng.randrange(-w2 + 1, w), (y0 + h if side == 'a' else y0 - h2)
+    elif rel == 'corner':
+        u0 = x0 + w if rng.random() < 0.5 else x0 - w2
+        v0 = y0 + h if rng.random() < 0.5 else y0 - h2
+    elif rel == 'left':
+        u0, v0 = x0 - w2 - rng.randrange(1, 3), y0 + rng.randrange(-h2 - 1, h + 2)
+    elif rel == 'right':
+        u0, v0 = x0 + w + rng.randrange(1, 3), y0 + rng.randrange(-h2 - 1, h + 2)
+    elif rel == 'above':
+        u0, v0 = x0 + rng.randrange(-w2 - 1, w + 2), y0 + h + rng.randrange(1, 3)
+    elif rel == 'below':
+        u0, v0 = x0 + rng.randrange(-w2 - 1, w + 2), y0 - h2 - rng.randrange(1, 3)
+    else:   # cross: a plus sign
+        w2, h2 = w + 2, 1
+        u0, v0 = x0 - 1, y0 + rng.randrange(0, h)
+        if h == 1:
+            h = 3
+            v0 = y0 + 1
+    a = [_box(x0, y0, x0 + w, y0 + h, rng)]
+    b = [_box(u0, v0, u0 + w2, v0 + h2, rng)]
+    oa = ('P', a) if rng.random() < 0.5 else ('M', [a])
+    ob = ('P', b) if rng.random() < 0.5 else ('M', [b])
+    return oa, ob, {'family': 'boxes', 'rel': rel}
+
+
+def fam_straddle(rng):
+    """B's vertices are drawn from a range three times as wide as A's, so that B straddles A's bounding box: vertices of B
+    beyond A's right / upper edge, edges of B that lie entirely to the right of A, bounding boxes that overlap in one
+    coordinate only (the shortcut and early-exit conditions of C09)"""
+    L = rng.choice([4, 6, 8])
+    a = lattice_polygon(rng, L, nmax=6)
+    for _ in range(60):
+        n = rng.randrange(3, 6)
+        pts = [(float(rng.randrange(-L, 2 * L + 1)), float(rng.randrange(-L, 2 * L + 1))) for _ in range(n)]
+        cx = sum(p[0] for p in pts) / n
+        cy = sum(p[1] for p in pts) / n
+        pts.sort(key=lambda p: math.atan2(p[1] - cy, p[0] - cx))
+        if simple_ring_ok(pts):
+            b = pts
+            break
+    else:
+        b = [(float(L), -1.0), (float(2 * L), float(L) / 2), (float(L) + 1.0, float(2 * L))]
+    oa, ob = ('M', [[a]]), ('M', [[b]])
+    if rng.random() < 0.5:
+        oa, ob = ob, oa
+    return oa, ob, {'family': 'straddle', 'L': L}
+
+
+FAMILIES['fan'] = fam_fan
+FAMILIES['sliver'] = fam_sliver
+FAMILIES['boxes'] = fam_boxes
+FAMILIES['straddle'] = fam_straddle
+
+
+def rounded_parallel(a, b, prec):
+    """finding N5: two input edges that are NOT parallel (exact cross product of their direction vectors non-zero) but whose
+    cross product, evaluated the way segment_intersection.rs does it in the working precision, is exactly 0"""
+    from .fmt import rings_of_operand, to_f32
+    rnd = (lambda q: to_f32(float(q))) if prec == 32 else (lambda q: float(q))
+    F = Fraction
+    edges = []
+    for o in (a, b):
+        for r in rings_of_operand(o):
+            r = [p for i, p in enumerate(r) if i == 0 or p != r[i - 1]]
+            if len(r) > 1 and r[0] == r[-1]:
+                r = r[:-1]
+            n = len(r)
+            for i in range(n):
+                if r[i] != r[(i + 1) % n]:
+                    edges.append((r[i], r[(i + 1) % n]))
+    if len(edges) > 200:
+        return False
+    for i, (p, q) in enumerate(edges):
+        vax, vay = rnd(F(q[0]) - F(p[0])), rnd(F(q[1]) - F(p[1]))
+        for (s, t) in edges[i + 1:]:
+            vbx, vby = rnd(F(t[0]) - F(s[0])), rnd(F(t[1]) - F(s[1]))
+            exact = (F(q[0]) - F(p[0])) * (F(t[1]) - F(s[1])) - (F(q[1]) - F(p[1])) * (F(t[0]) - F(s[0]))
+            if exact == 0:
+                continue
+            for (ux, uy, wx, wy) in ((vax, vay, vbx, vby), (vbx, vby, vax, vay), (-vax, -vay, vbx, vby), (vbx, vby, -vax, -vay)):
+                k = rnd(F(rnd(F(ux) * F(wy))) - F(rnd(F(uy) * F(wx))))
+                if k == 0.0:
+                    return True
+    return False
+
+
+def fam_near(rng, prec=32):
+    """a right triangle and a small square whose corner lies a few units in the last place OUTSIDE the hypotenuse
+    (checked exactly): the operands are disjoint and no edge touches another, but the orientation of the corner with
+    respect to the hypotenuse can only be decided by an exact predicate; coordinates carry full mantissas"""
+    from .fmt import to_f32
+    R = to_f32 if prec == 32 else (lambda v: v)
+    import struct
+
+    def nudge(x, k):
+        if prec == 64:
+            for _ in range(abs(k)):
+                x = math.nextafter(x, math.inf if k > 0 else -math.inf)
+            return x
+        b = struct.unpack('>i', struct.pack('>f', x))[0]
+        b += k if b >= 0 else -k
+        return struct.unpack('>f', struct.pack('>i', b))[0]
+    while True:
+        adv = adversarial_corner(rng, prec, 200) if rng.random() < 0.7 else None
+        if adv:
+            (w, _), (_, h), (cx, cy) = adv
+            tri = [(0.0, 0.0), (w, 0.0), (0.0, h)]
+            s = float(rng.choice([50, 20, 64, 7]))
+            sq = [(cx, cy), (R(cx + s), cy), (R(cx + s), R(cy + s)), (cx, R(cy + s))]
+            if any(_orient((w, 0.0), (0.0, h), q) >= 0 for q in sq):
+                continue
+            f = rng.choice(_SYM8)
+            tri2 = [f(x, y) for (x, y) in tri]
+            sq2 = [f(x, y) for (x, y) in sq]
+            k = rng.randrange(4)
+            sq2 = sq2[k:] + sq2[:k]
+            a, b = ('M', [[tri2]]), ('M', [[sq2]])
+            if rng.random() < 0.5:
+                a, b = b, a
+            return a, b, {'family': 'near', 'adversarial': True}
+        w, h = float(rng.choice([1000, 700, 4096, 300, 2500])), float(rng.choice([700, 1000, 333, 2048, 90]))
+        tri = [(0.0, 0.0), (w, 0.0), (0.0, h)]
+        t = rng.uniform(0.15, 0.85)
+        cx = R(w * (1 - t))
+        cy = R(h * t)
+        # move the corner outwards (up/right of the hypotenuse) until it is strictly outside, then a few more steps
+        steps = 0
+        while _orient((w, 0.0), (0.0, h), (cx, cy)) >= 0 and steps < 50:
+            cy = nudge(cy, 1)
+            steps += 1
+        cy = nudge(cy, rng.randrange(0, 3))
+        if _orient((w, 0.0), (0.0, h), (cx, cy)) >= 0:
+            continue
+        s = float(rng.choice([50, 20, 64, 7]))
+        sq = [(cx, cy), (R(cx + s), cy), (R(cx + s), R(cy + s)), (cx, R(cy + s))]
+        if any(_orient((w, 0.0), (0.0, h), q) >= 0 for q in sq):
+            continue
+        f = rng.choice(_SYM8)
+        tri2 = [f(x, y) for (x, y) in tri]
+        sq2 = [f(x, y) for (x, y) in sq]
+        k = rng.randrange(4)
+        sq2 = sq2[k:] + sq2[:k]
+        a, b = ('M', [[tri2]]), ('M', [[sq2]])
+        if rng.random() < 0.5:
+            a, b = b, a
+        return a, b, {'family': 'near'}
+
+
+FAMILIES['near'] = fam_near
+
+
+def naive_orient_sign(p0, p1, p2, prec):
+    """sign of the plain floating-point determinant (p0-p2) x (p1-p2) evaluated in the working precision (the quantity a
+    non-robust orientation test would look at)"""
+    from .fmt import to_f32
+    R = to_f32 if prec == 32 else (lambda v: v)
+    dl = R(R(p0[0] - p2[0]) * R(p1[1] - p2[1]))
+    dr = R(R(p0[1] - p2[1]) * R(p1[0] - p2[0]))
+    d = R(dl - dr)
+    return (d > 0) - (d < 0)
+
+
+def adversarial_corner(rng, prec, tries=4000):
+    """(a, b, c): c lies strictly on the negative side of the line a->b, a few units in the last place away, and the plain
+    floating-point determinant of (a, b, c) — in some argument order — has the WRONG non-zero sign"""
+    from .fmt import to_f32
+    R = to_f32 if prec == 32 else (lambda v: v)
+    import struct
+
+    def nudge(x, k):
+        if prec == 64:
+            for _ in range(abs(k)):
+                x = math.nextafter(x, math.inf if k > 0 else -math.inf)
+            return x
+        b = struct.unpack('>i', struct.pack('>f', x))[0]
+        b += k if b >= 0 else -k
+        return struct.unpack('>f', struct.pack('>i', b))[0]
+    for _ in range(tries):
+        w, h = float(rng.choice([1000, 700, 4096, 300, 2500, 77])), float(rng.choice([700, 1000, 333, 2048, 90, 51]))
+        a, b = (w, 0.0), (0.0, h)
+        t = rng.uniform(0.1, 0.9)
+        cx, cy = R(w * (1 - t)), R(h * t)
+        steps = 0
+        while _orient(a, b, (cx, cy)) >= 0 and steps < 60:
+            cy = nudge(cy, 1)
+            steps += 1
+        for extra in range(3):
+            c = (cx, nudge(cy, extra))
+            if _orient(a, b, c) >= 0:
+                continue
+            for (p0, p1, p2, sgn) in ((a, b, c, -1), (b, a, c, 1), (c, a, b, -1), (a, c, b, 1), (b, c, a, -1), (c, b, a, 1)):
+                s = naive_orient_sign(p0, p1, p2, prec)
+                if s != 0 and s != sgn:
+                    return a, b, c
+    return None
+
+
+def near_degenerate(a, b, prec, ulps=32):
+    """finding N6: some vertex lies within `ulps` units in the last place (of the magnitude of the coordinates involved) of an
+    edge it is not an endpoint of, without lying on it — decided exactly"""
+    from .fmt import rings_of_operand
+    F = Fraction
+    eps = F(1, 2 ** (24 if prec == 32 else 53))
+    rings = []
+    for o in (a, b):
+        for r in rings_of_operand(o):
+            r = [p for i, p in enumerate(r) if i == 0 or p != r[i - 1]]
+            if len(r) > 1 and r[0] == r[-1]:
+                r = r[:-1]
+            if len(r) >= 2:
+                rings.append([(F(x), F(y)) for (x, y) in r])
+    edges = [(r[i], r[(i + 1) % len(r)]) for r in rings for i in range(len(r)) if r[i] != r[(i + 1) % len(r)]]
+    verts = {p for r in rings for p in r}
+    if len(edges) * len(verts) > 40000:
+        return False
+    for (p, q) in edges:
+        dx, dy = q[0] - p[0], q[1] - p[1]
+        l2 = dx * dx + dy * dy
+        mag = max(abs(p[0]), abs(p[1]), abs(q[0]), abs(q[1]), F(1, 2 ** 100))
+        tol = ulps * eps * mag
+        for v in verts:
+            if v == p or v == q:
+                continue
+            cr = dx * (v[1] - p[1]) - dy * (v[0] - p[0])
+            if cr == 0:
+                continue
+            t = dx * (v[0] - p[0]) + dy * (v[1] - p[1])
+            if t < 0 or t > l2:
+                continue
+            if cr * cr <= tol * tol * l2:
+                return True
+    return False
+
+
+def fam_near64(rng):
+    a, b, m = fam_near(rng, 64)
+    return a, b, dict(m, family='near64')
+
+
+FAMILIES['near64'] = fam_near64
